@@ -71,6 +71,10 @@ func (sdp *SizeDataPacker) PackDataInChunks(data [][]byte, limit int) ([][]byte,
 				if isMarshaledBuffTooLarge {
 					returningBuff = append(returningBuff, marshaledElements)
 					elements = make([][]byte, 0)
+				} else {
+					// the current element starts the next chunk
+					lastMarshalized = marshaledElements
+					continue
 				}
 			}
 
